@@ -37,7 +37,7 @@ V0(e, p) == IF HasP(e, p) THEN V(e, p) ELSE 0
 
 AcsSame(b, e) ==
   IF ~b.out.acs.ok \/ ~e.out.acs.ok THEN b.out.acs.ok = e.out.acs.ok /\ (b.out.acs.ok \/ b.out.acs.err = e.out.acs.err)
-  ELSE Abs(b.out.acs.v - e.out.acs.v) <= 200
+  ELSE b.out.acs.nonfinite \/ e.out.acs.nonfinite \/ Abs(b.out.acs.v - e.out.acs.v) <= 200
 
 Judge(e) ==
   IF e.tag = "base" THEN {}
